@@ -16,7 +16,7 @@ from ..flows import canon_flow, compile_flow_sheet, rows_to_csv
 from ..gen import sheets as G
 
 MANIFEST = dict(
-    text="Proof: Lean theorems validCert_sound / flows_equiv_of_cert (an accepted bisimulation certificate implies equal observation traces for EVERY infinite sequence of contact replies, field/group values, random draws and sub-flow/webhook/airtime outcomes, under every interpretation of the tests). The verified checker is run by the driver on every generated core sheet between the REAL compiler's output and the reference interpretation refFlow (the statement of C02 made executable in Lean). Universal over sheets only per sheet explored (C02_full visible; the Lean compiler model Rpft/Compile.lean is tied to the real parser in C01 but not yet proved equivalent to refFlow).",
+    text="Proof: Lean theorems validCert_sound / flows_equiv_of_cert (an accepted bisimulation certificate implies equal observation traces for EVERY infinite sequence of contact replies, field/group values, random draws and sub-flow/webhook/airtime outcomes, under every interpretation of the tests). The verified checker is run by the driver on every generated core sheet between the REAL compiler's output and the reference interpretation refFlow (the statement of C02 made executable in Lean; reference_flow_closed: for EVERY sheet it is a closed flow, so no reference path ends for a structural reason). Universal over sheets only per sheet explored (C02_full visible; the Lean compiler model Rpft/Compile.lean is tied to the real parser in C01 but not yet proved equivalent to refFlow).",
     ref="§5 C02",
     note="Trusts: Lean kernel; certificate SEARCH is untrusted (only the validated certificate counts); harness canonicaliser of actions (invented uuids dropped) and the row→action/operand reference table (harness/gen/sheets.py reference_row); real RowParser used to parse the CSV rows for both sides. Domain: WFcore ∧ NoopStable sheets (DESIGN §5 C02 notes); known finding F-C02-b outside it.",
     technique="Lean 4 proof of bisimulation-certificate soundness + verified checker run on real compiler output vs executable reference semantics",
@@ -143,7 +143,7 @@ def run(ck: core.Check):
     ]
     ck.partial_gap = [
         "C02_full (all sheets) is not proved universally: it would need a proof relating the Lean compiler model (Rpft/Compile.lean, tied to the real parser in C01) to refFlow; it is decided per explored sheet by the verified certificate checker on the real output",
-        "refFlow_closed is checked per sheet (closedB on the reference flow), not proved universally",
+        "reference_flow_closed IS proved for every sheet (the reference interpretation is always a closed flow); the per-sheet closedB run on the reference flow is kept as a cross-check of the driver",
     ]
     rp = _parser()
     drv = core.Driver()
